@@ -43,10 +43,16 @@ def _on_prof(signum, frame):
 
 def arm_cpu(seconds: float) -> None:
     signal.setitimer(signal.ITIMER_PROF, seconds, 1.0)
+    # a loop inside a C function (regex engine) never reaches the Python-level signal handler: have faulthandler's
+    # watchdog thread dump the stack to stderr so that the parent can say where the case was when it killed the worker
+    import faulthandler
+    faulthandler.dump_traceback_later(seconds * 1.5 + 10, repeat=False, file=sys.stderr)
 
 
 def disarm_cpu() -> None:
     signal.setitimer(signal.ITIMER_PROF, 0)
+    import faulthandler
+    faulthandler.cancel_dump_traceback_later()
 
 
 def main() -> None:
